@@ -134,7 +134,12 @@ func render(o *opRec) string {
 		}
 		return ":irc.example.net CAP me ACK :" + strings.Join(caps, " ")
 	case "NAK":
-		return ":irc.example.net CAP me NAK :whatever"
+		var caps []string
+		json.Unmarshal(o.Line.Caps, &caps)
+		if len(caps) == 0 {
+			return ":irc.example.net CAP me NAK :whatever"
+		}
+		return ":irc.example.net CAP me NAK :" + strings.Join(caps, " ")
 	case "AUTHENTICATE":
 		return "AUTHENTICATE +"
 	case "903":
